@@ -30,7 +30,8 @@ REPLAY_DIR = os.path.join(EVIDENCE_DIR, 'replays')
 CORPUS_DIR = os.path.join(VERIF, 'corpus')
 KNOWN_FILE = os.path.join(VERIF, 'known_findings.txt')
 REPO = os.environ.get('GEOSTRUCTURES_REPO', '/repo')
-if os.path.realpath(REPO) != os.path.realpath('/repo'):
+SCRATCH = os.path.realpath(REPO) != os.path.realpath('/repo')
+if SCRATCH:
     # runs against scratch clones (seeded changes, reverted fixes) never overwrite the real evidence
     EVIDENCE_DIR = os.path.join(VERIF, 'evidence', '_scratch')
     REPLAY_DIR = os.path.join(EVIDENCE_DIR, 'replays')
@@ -153,8 +154,8 @@ class LeanLock:
         self.f.close()
 
 
-def _run(cmd, timeout, input=None, cwd=LEAN_DIR):
-    p = subprocess.run(cmd, cwd=cwd, input=input, capture_output=True, text=True, timeout=timeout)
+def _run(cmd, timeout, input=None, cwd=None):
+    p = subprocess.run(cmd, cwd=cwd or LEAN_DIR, input=input, capture_output=True, text=True, timeout=timeout)
     return p.returncode, p.stdout, p.stderr
 
 
